@@ -180,6 +180,10 @@ impl OutputFormat for TundraDraw {
             let mut cmd = data[o];
             o += 1;
             if cmd == TUNDRA_POSITION {
+                // two 32 bit coordinates follow
+                if data.len() < o + 8 {
+                    return Err(LoadingError::FileTooShort.into());
+                }
                 pos.y = to_u32(&data[o..]);
                 if pos.y < 0 || pos.y >= (u16::MAX) as i32 {
                     return Err(io::Error::new(
@@ -206,6 +210,17 @@ impl OutputFormat for TundraDraw {
             }
 
             if cmd > 1 && cmd <= 6 {
+                // the character and one 32 bit colour per colour flag follow
+                let mut operands = 1;
+                if cmd & TUNDRA_COLOR_FOREGROUND != 0 {
+                    operands += 4;
+                }
+                if cmd & TUNDRA_COLOR_BACKGROUND != 0 {
+                    operands += 4;
+                }
+                if data.len() < o + operands {
+                    return Err(LoadingError::FileTooShort.into());
+                }
                 let ch = data[o];
                 o += 1;
                 if cmd & TUNDRA_COLOR_FOREGROUND != 0 {
